@@ -12,7 +12,7 @@ import ast
 from sa.model import AnalysisError, FuncInfo
 from sa.ctx import Ctx, short, stmt_key, ENGINE_MODULES
 from sa.cfg import NORMAL, describe_path
-from sa.report import Report
+from sa.report import Report, section
 from sa.effects import Effects
 from sa.util import disjunctions, cfg_root, node_has_call, node_stores_attr, has_fact, exists_in, fact_in, local_assigned_from
 from sa import pat
@@ -204,11 +204,11 @@ def r6(ctx: Ctx, rep: Report):
 
 def run(ctx: Ctx, rep: Report, tier: str):
     c = C02(ctx, rep)
-    c.r1()
-    c.r2()
-    c.r3()
-    c.r4()
-    c.r5()
+    section(rep, c.r1)
+    section(rep, c.r2)
+    section(rep, c.r3)
+    section(rep, c.r4)
+    section(rep, c.r5)
     r6(ctx, rep)
     rep.rule("C02.R7", "adopting a file that was already in the way (CloudFileExistsError arm of create_synced) records it as UNSYNCED foreign content: its id and current "
              "hash are stored, its last-synced markers are not touched, so the next step sees a conflict instead of uploading over it", 2)
@@ -236,25 +236,25 @@ def run(ctx: Ctx, rep: Report, tier: str):
     from rules.common import split_contract, transfer_success_chain
     rep.rule("C02.R9", "a conflict is kept as two entries, never merged away: SyncState.split moves the LOCAL half to a new entry, clears it from the original, marks both "
              "changed and unsynced (C05.V15)", 7)
-    split_contract(ctx, rep, "C02.R9")
+    section(rep, lambda: split_contract(ctx, rep, "C02.R9"))
     rep.rule("C02.R10", "content is reported propagated only after it was: handle_hash_diff returns FINISHED only after download_changed and upload_synced both reported "
              "success; a falsy result of either is a PUNT", 2)
-    transfer_success_chain(ctx, rep, "C02.R10")
+    section(rep, lambda: transfer_success_chain(ctx, rep, "C02.R10"))
     from rules.common import definition_holds
     rep.rule("C02.R11", "the definitions the destructive arms are guarded with: is_creation (a pending creation is never deleted under) and is_deletion", 2)
-    definition_holds(ctx, rep, "C02.R11", "SyncEntry.is_creation", "the guard 'the other side holds a pending creation' no longer means that: a delete can win over a new file")
-    definition_holds(ctx, rep, "C02.R11", "SyncEntry.is_deletion", "a side that is not deleted is treated as deleted (its peer is removed), or a real delete is not propagated")
+    section(rep, lambda: definition_holds(ctx, rep, "C02.R11", "SyncEntry.is_creation", "the guard 'the other side holds a pending creation' no longer means that: a delete can win over a new file"))
+    section(rep, lambda: definition_holds(ctx, rep, "C02.R11", "SyncEntry.is_deletion", "a side that is not deleted is treated as deleted (its peer is removed), or a real delete is not propagated"))
     from rules.common import creation_dispatch
     rep.rule("C02.R12", "a new object reaches the peer without overwriting anything: create_synced / mkdir_synced only for a creation and only after check_disjoint_create "
              "found no clash; a file only after its content was downloaded; handle_rename only for a non-creation", 4)
-    creation_dispatch(ctx, rep, "C02.R12")
+    section(rep, lambda: creation_dispatch(ctx, rep, "C02.R12"))
     from rules.common import uploads_read_the_changed_sides_download
     rep.rule("C02.R13", "the peer is overwritten / created with the changed side's current bytes (C03.R12), never with the synced side's own temp file or a stale download", 5)
-    uploads_read_the_changed_sides_download(ctx, rep, "C02.R13")
+    section(rep, lambda: uploads_read_the_changed_sides_download(ctx, rep, "C02.R13"))
     from rules.common import resolution_bookkeeping
     rep.rule("C02.R14", "the version that lost a conflict and was kept as .conflicted is safe from stale events: its entry is flagged CONFLICT and its other half cleared (C05.V17)", 10)
-    resolution_bookkeeping(ctx, rep, "C02.R14")
+    section(rep, lambda: resolution_bookkeeping(ctx, rep, "C02.R14"))
     from rules.common import content_first_deferral
     rep.rule("C02.R15", "an edit wins over a concurrent path change: in sync() a side with unchanged content yields to the other side's pending content change unconditionally, "
              "so the newer bytes are transferred before a rename / move-out of this side is acted on", 1)
-    content_first_deferral(ctx, rep, "C02.R15")
+    section(rep, lambda: content_first_deferral(ctx, rep, "C02.R15"))
